@@ -23,6 +23,7 @@ mod c12;
 mod c13;
 mod c14;
 mod c15;
+mod c16;
 mod c18;
 mod c19;
 mod fuzzrun;
@@ -79,6 +80,7 @@ fn main() {
         "C13" => "C13",
         "C14" => "C14",
         "C15" => "C15",
+        "C16" => "C16",
         "C17" => "C17",
         "C18" => "C18",
         "C19" => "C19",
@@ -102,6 +104,7 @@ fn main() {
         "C13" => c13::run(&ctx),
         "C14" => c14::run(&ctx),
         "C15" => c15::run(&ctx),
+        "C16" => c16::run(&ctx),
         "C17" => c17::run(&ctx),
         "C18" => c18::run(&ctx),
         "C19" => c19::run(&ctx),
@@ -137,6 +140,7 @@ fn replay(path: &str) -> i32 {
         "c12" => c12::replay(&v),
         "c13" => c13::replay(&v),
         "c14" => c14::replay(&v),
+        "c16-map" | "c16-diag" | "c16-undefined" | "c16-runtime" => c16::replay(&v),
         "c19-newvm" | "c19-det" | "c19-hist" | "c19-iso" => c19::replay(&v),
         "c15" | "c15-family" | "cli-bytes" => c15::replay(&v),
         "cli" => clicheck::replay(&v),
